@@ -60,10 +60,15 @@ func (p *ParserPlanner) Process(ctx *shared.PlannerContext,
 			if entry.Err != nil {
 				return nil
 			}
-			var err error
-			entry.Labels, err = parser(entry.Message, &entry.Labels)
+			labels, err := parser(entry.Message, &entry.Labels)
+			if err != nil {
+				// a line that is not what the parser expects is passed on as it is,
+				// like on the SQL path; it must not end the whole query
+				return nil
+			}
+			entry.Labels = labels
 			entry.Fingerprint = fingerprint(entry.Labels)
-			return err
+			return nil
 		},
 		OnAfterEntriesSlice: func(entries []shared.LogEntry, c chan []shared.LogEntry) error {
 			c <- entries
